@@ -3,33 +3,50 @@
 READINGS (the oracle is written under these; each is the reading under which the repaired code is right)
 
 * Equality of scores is equality of `abstract(score)` below, with the identifications MusicXML itself makes:
-  a missing voice or staff denotes 1, a missing alteration denotes 0, a tempo mark is its quarter-note tempo,
-  a missing/empty part name is no name, a symbolic duration is what the note shows (explicit dict or the
-  estimate partitura derives from the numeric duration; `dots` missing = 0), `raw_text` missing = the text.
-* "Scores MusicXML can express": every note lies inside a measure, the first measure starts at 0, measures are
-  contiguous, notes do not cross a change of divisions, note ids are unique XML names, non-grace notes have a
-  positive duration, grace notes have none and sit with their main note in one voice; a part either numbers all
-  its voices or none; every part starts with page 1 / system 1 at time 0 (what every imported score has and what the
-  repo's own round-trip test builds by hand: the importer always creates them and the exporter always writes them
-  as `<print new-page new-system>` — tests/test_xml.py pins both); textual directions are the ones the direction
-  parser produces from their own words (class, text and raw_text are *derived* from the words in MusicXML).
+  a missing voice or staff denotes 1 (also on directions), a missing alteration denotes 0, a tempo mark is its
+  quarter-note tempo, a missing/empty part name is no name, a symbolic duration is what the note shows (explicit dict
+  or the estimate partitura derives from the numeric duration; `dots` missing = 0), `raw_text` missing = the text.
+  Pages/systems are not in the property's list and are not compared (the importer numbers systems twice at a
+  `<print new-page new-system>`).
+* "Scores MusicXML can express" (`domain_issues` lists the reasons for which the oracle stays silent; the model streams
+  still run): every note lies inside a measure, the first measure starts at 0, measures are contiguous, notes do not
+  cross a change of divisions and such a change sits on a time point of the part (something starts or ends there:
+  `linearize_measure_contents` splits at time points), note ids are unique in the whole score (one counter renames
+  duplicates), non-grace notes have a positive duration, grace notes have none and sit with their main note in one
+  voice (the first note written after the run: the highest pitched one of a chord, no unpitched note in that chord); a
+  part either numbers all its voices or none; every part starts with page 1 / system 1 at time 0 (what every imported
+  score has and what the repo's own round-trip test builds by hand: the importer always creates them and the exporter
+  always writes them as `<print new-page new-system>` - tests/test_xml.py pins both); at most one time signature, key
+  signature, tempo (and clef per staff) at one time; directions have an extent or none; pedals end; barline fermatas
+  have a location, and a mid-measure one does not coincide with a change of divisions (do_barlines sees segments);
+  textual directions are the ones the direction parser produces from their own words (class, text and raw_text are
+  *derived* from the words in MusicXML); a tie does not run backwards in the document (from a higher to a lower voice
+  inside one measure) and - the property's own hypothesis - two ties of one pitch do not sound at the same time.
 * MusicXML has no polyphony inside a voice (`remove_voice_polyphony` docstring): notes that cannot stay in their
   voice (longer than the shortest note of their onset, or running past the next onset of the voice) are given a
   voice number that no note of that measure segment uses.  The oracle therefore demands the *same* voice only of
   notes in voices that are monophonic in their segment, and of the others that they end up in a voice unused
-  before.  (Which voice exactly is checked against the Lean model, stream (i).)
-* Ends of constant loudness/tempo/articulation directions, pages and systems are derived data
-  (`set_end_times`: the start of the next one of the same kind, else the end of the part); `abstract` does not
-  compare them, the oracle checks that the imported score has exactly those derived ends.
+  before (and does not ask a grace note to keep the link to a main note that had to move).  Which voice exactly is
+  checked against the Lean model, stream (i).
+* Ends of constant loudness/tempo/articulation directions are derived data (`set_end_times`: the start of the next one
+  of the same kind, else the end of the part); `abstract` does not compare them, the oracle checks that the imported
+  score has exactly those derived ends.
+* Byte fixpoint: `save(load(save(s))) == save(s)` is demanded when the notes of `s` carry voice numbers (and staff
+  numbers where the part has several staves): the identification "missing = 1" is many-to-one and the file can only be
+  reproduced from the representative the importer picks.  For every `s`, the re-written file `x = save(load(save(s)))`
+  must satisfy `save(load(x)) == x`.
 
 STREAMS (requests to the Lean driver drv_c03)
   lin   (i)   abstract measure content  ->  `linearize` must give the event list parsed from the bytes written
+  wf          the hypothesis `MeasureWF` of the theorem reader_writer holds for every measure of a score in the domain
   int 0 (ii)  events parsed from the bytes ->  `readMeasure` must give what load_musicxml produced (doc order)
   snd   (ii)  events parsed from the bytes ->  `interpret` (MusicXML semantics) must give the score's own notes
-  num / pair / tie   range numbering, range pairing and tie pairing (Model/RangeNumbers.lean)
+  numg / num  the numbers written for slurs+tuplets (per note, counter shared by the file) / wedges+dashes
+  pair / tie  the importer's pairing of slurs and tuplets by number, of ties by pitch (Model/RangeNumbers.lean)
 ORACLE (Python only): abstract(load(save(s))) == abstract(s) field by field; save(load(save(s))) == save(s);
 an independent interpretation of the written file in quarter notes (divisions, backup/forward, chord, grace, ties
-by pitch) == the sounding notes of the score.
+by pitch and adjacency) == the sounding notes and measure extents of the score; in the document no two open
+slurs/tuplets/wedges/dashes share a number.
 """
 import io
 import os
@@ -46,23 +63,32 @@ TRUSTED = [
     "lxml serialisation/parsing (etree.tostring pretty_print, XMLParser remove_blank_text), find/findall/xpath",
     "Part.iter_all order inside a time point (class registry order) is taken from the implementation as input of the writer model",
     "do_attributes/do_directions/do_barlines/do_harmony/do_prints produce the non-note elements handed to the writer model "
-    "(their content is compared through stream (iii) only)",
+    "(their content is compared through the round trip only); the split of a measure into divisions segments is recomputed "
+    "in the harness and checked through stream lin",
     "estimate_symbolic_duration / parse_direction are used as given (C12 covers the duration tables)",
+    "Python dict (ongoing, counters) as a finite map; list.sort stable",
 ]
 PARTIAL = [
     "byte-level fixpoint save(load(save(s))) == save(s) is compared on every case, not proved",
-    "element codecs (attributes, directions, harmony, print, part-list nesting) are compared field by field, not modelled in Lean",
+    "element codecs (note fields, attributes, directions, harmony, print, part-list nesting) are compared field by field through "
+    "the round trip, not modelled in Lean (no Model/XmlNote.lean)",
+    "pairing of wedges/dashes by number in _handle_direction is not modelled (their numbers are: numbers_distinct, stream num)",
+    "numbers_distinct speaks about the order in which the exporter meets the ranges; that document-open wedges are counter-open "
+    "when a new wedge is numbered (fix C03-6) is checked on the bytes by the oracle, not proved",
 ]
-RULE = ("seeded structured scores (1-3 parts, nested groups, 1-3 staves, 1-4 voices or no voice numbers, chords of unequal "
-        "duration, gaps, mid-measure division/clef/signature changes, pickups, ties over barlines, grace runs, slurs, tuplets, "
-        "directions, tempi, repeats/endings, fermatas) + hand-written corpus + every tests/data/musicxml fixture; "
-        "distinct = distinct structural signature (parts, voices, features used); non-trivial = at least one measure with two voices, "
-        "a gap, a chord or a division change")
+RULE = ("seeded structured scores (1-3 parts, nested groups, 1-3 staves, 1-4 voices or no voice numbers, shared or separate "
+        "registers, chords of unequal duration, notes running past the next onset, gaps, silent measures, late entries, "
+        "mid-measure division/clef/signature changes, pickups and irregular measures, tie chains over barlines, grace runs, "
+        "nested/overlapping slurs and tuplets, dynamics, wedges, dashes, tempo words, tempi, pedals, repeats/endings, barline "
+        "and note fermatas, articulations, fingering, stems, unpitched notes, harmony) + hand-written corpus (witnesses of all "
+        "repaired defects) + every tests/data/musicxml fixture (load, then the same checks); distinct = distinct structural "
+        "signature (parts, voices, features used, notes); non-trivial = more than two notes or two voices or a feature")
 LEVEL_TEXT = ("Lean 4 theorems over all measure contents / event streams about executable models of the exporter's measure "
-              "linearisation and voice clean-up, of an independent MusicXML measure reader and of the importer's reader, and of "
-              "range numbering/pairing; the models are tied to partitura by differential runs on generated scores (writer model "
-              "vs. bytes written, reader models vs. load_musicxml and vs. the score), and the round trip and byte fixpoint are "
-              "checked directly on every case and every MusicXML fixture of the repository.")
+              "linearisation and voice clean-up, of an independent MusicXML measure reader and of the importer's reader, of "
+              "range numbering, pairing by number and tie pairing; the models are tied to partitura by differential runs on "
+              "generated scores (writer model vs. bytes written, reader models vs. load_musicxml and vs. the score, the "
+              "theorem's hypothesis evaluated on every measure), and the round trip and byte fixpoint are checked directly "
+              "on every case and every MusicXML fixture of the repository.")
 
 REPO = os.environ.get("VERIF_REPO", "/repo")
 FIXDIR = os.path.join(REPO, "tests", "data", "musicxml")
@@ -357,6 +383,11 @@ def gen_extras(rng, d, nstaves):
         # pedals do not overlap one another (a single pedal line)
         if all(not (e[0] == "SustainPedalDirection" and a < e[2] and e[1] < b) for e in ex):
             ex.append(["SustainPedalDirection", a, b, {"line": r() < 0.5, "staff": staff()}])
+    for _ in range(rng.choice([0, 0, 0, 1, 2])):
+        if r() < 0.5:
+            ex.append(["RomanNumeral", rng.choice(inner), None, {"text": rng.choice(["I", "V7", "ii6", "IV", "viio"])}])
+        else:
+            ex.append(["ChordSymbol", rng.choice(inner), None, {"root": rng.choice("CDEFGAB"), "kind": rng.choice(["maj7", "m", "7", "dim"])}])
     if r() < 0.01:
         ex.append(["Words", rng.choice(inner), None, {"text": rng.choice(PLAIN_WORDS)}])
 
@@ -863,7 +894,7 @@ def fixtures():
 def cases(rng, tier):
     for fn in fixtures():
         yield {"k": "fixture", "file": fn}
-    n = {"quick": 300, "thorough": 6000, "search": 1500}.get(tier, 300)
+    n = {"quick": 600, "thorough": 20000, "search": 1500}.get(tier, 600)
     for i in range(n):
         yield gen_score(rng, big=(i % 5 == 0))
 
